@@ -183,6 +183,9 @@ pub struct ClientSpec {
     pub ping_payload: u64,
     pub ack_delay_ns: u64,
     pub info_delay_ns: u64,
+    /// think time before the k-th login-phase answer (cookie responses, Encryption Response)
+    #[serde(default)]
+    pub login_think_ns: Vec<u64>,
     pub send_info: bool,
     pub locale: String,
     #[serde(default)]
@@ -233,6 +236,7 @@ impl ClientSpec {
             ping_payload: rng.next_u64(),
             ack_delay_ns: 0,
             info_delay_ns: 0,
+            login_think_ns: vec![],
             send_info: true,
             locale: "en_US".into(),
             ka: vec![],
@@ -311,6 +315,7 @@ enum Action {
     Script(usize),
     Extra(usize),
     Close { reset: bool },
+    EncResp,
 }
 
 struct Engine<'a> {
@@ -329,6 +334,7 @@ struct Engine<'a> {
     closed: bool,
     ended: bool,
     last_enc_req: Option<(Vec<u8>, Vec<u8>)>,
+    login_answers: usize,
 }
 
 fn phase_name(p: Phase) -> &'static str {
@@ -689,7 +695,12 @@ impl<'a> Engine<'a> {
                         _ => None,
                     };
                     let body = codec::cookie_response_body(&key, payload.as_deref());
-                    self.send_packet("CookieResponse", 0x04, &body);
+                    let think = self.next_think();
+                    if think == 0 {
+                        self.send_packet("CookieResponse", 0x04, &body);
+                    } else {
+                        self.at(think, Action::Send { kind: "CookieResponse", id: 0x04, body });
+                    }
                 }
             }
             "EncryptionRequest" => {
@@ -699,10 +710,12 @@ impl<'a> Engine<'a> {
                 self.view.server_key = Some(hex(&key));
                 self.last_enc_req = Some((key, token));
                 if reactive {
-                    let v = self.spec.enc.clone();
-                    let body = self.enc_response(&v);
-                    self.send_packet("EncryptionResponse", 0x01, &body);
-                    self.enable_crypto();
+                    let think = self.next_think();
+                    if think == 0 {
+                        self.run_action(Action::EncResp);
+                    } else {
+                        self.at(think, Action::EncResp);
+                    }
                 }
             }
             "LoginSuccess" => {
@@ -784,6 +797,12 @@ impl<'a> Engine<'a> {
         }
     }
 
+    fn next_think(&mut self) -> u64 {
+        let t = self.spec.login_think_ns.get(self.login_answers).copied().unwrap_or(0);
+        self.login_answers += 1;
+        t
+    }
+
     fn end(&mut self) {
         if self.ended {
             return;
@@ -807,6 +826,12 @@ impl<'a> Engine<'a> {
                 }
             }
             Action::Close { reset } => self.do_close(reset),
+            Action::EncResp => {
+                let v = self.spec.enc.clone();
+                let body = self.enc_response(&v);
+                self.send_packet("EncryptionResponse", 0x01, &body);
+                self.enable_crypto();
+            }
             Action::Extra(i) => {
                 let e = self.spec.extras[i].clone();
                 let b = self.body_bytes(&e.body);
@@ -869,6 +894,7 @@ pub async fn run_client(spec: &ClientSpec, pipe: &ClientEnd, deadline_ns: u64) -
         closed: false,
         ended: false,
         last_enc_req: None,
+        login_answers: 0,
     };
     let t_connect = e.now();
     e.view.connect_ns = t_connect;
